@@ -3,7 +3,7 @@ import itertools
 
 from engine import loader
 from engine.runner import Acc
-from engine.util import call, chunks, feq, other_bits
+from engine.util import call, chunks, feq, other_bits, vary_case
 from spec import commb_fields as CF
 from spec import frames as F
 
@@ -73,7 +73,7 @@ def w_row(arg):
                 mb0 = row.place(st, sg, raw)
                 for bg in bgs:
                     k += 1
-                    msg = carrier(mb0 | (bg & ~fmask & ONES), k)
+                    msg = vary_case(carrier(mb0 | (bg & ~fmask & ONES), k), k // 2)
                     acc.n += 1
                     pl = bool(k % 2)
                     s = judge_row(name, st, sg, raw, msg, pl)
@@ -109,10 +109,19 @@ def judge_misc(kind, p):
             return "temp44:raises_or_shape"
         return None if feq(r[1][0], v * 0.25, 1e-12, 1e-9) and feq(r[1][1], v * 0.125, 1e-12, 1e-9) else "temp44:wrong_value"
     if kind == "cap17":
+        from engine.util import scribble
         bits24, msg = p
         exp = ["BDS" + CF.CAP17[i] for i in range(24) if (bits24 >> (23 - i)) & 1]
         r = call(pms.commb.cap17, msg)
-        return None if r == ("ok", exp) else "cap17:wrong_register_list"
+        if r != ("ok", exp):
+            return "cap17:wrong_register_list"
+        scribble(r[1])                      # the caller filters / clears its list ...
+        r2 = call(pms.commb.cap17, msg)     # ... the next answer must not be affected
+        if r2 != ("ok", exp):
+            return "cap17:result_shares_state_with_an_earlier_result"
+        if bits24 & 0x020000 and call(pms.commb.is17, msg.upper()) != ("ok", (int(msg[14:22], 16) == 0)):
+            return "is17:after_caller_modified_cap17_result"
+        return None
     if kind == "ovc10":
         bit, msg = p
         r = call(pms.commb.ovc10, msg)
